@@ -131,9 +131,10 @@ def impl():
         sys.path.insert(0, core.PYLIB)
         logging.disable(logging.CRITICAL)
         from treadmill import rulefile, endpoints, firewall, iptables, utils, services
+        from treadmill import yamlwrapper
         from treadmill.runtime.linux import _run, _finish
         _IMPL = {'rulefile': rulefile, 'endpoints': endpoints, 'firewall': firewall, 'iptables': iptables,
-                 'utils': utils, 'services': services, '_run': _run, '_finish': _finish}
+                 'utils': utils, 'services': services, 'yaml': yamlwrapper, '_run': _run, '_finish': _finish}
     return _IMPL
 
 
@@ -185,15 +186,62 @@ class FakePlugins:
         raise KeyError('no firewall plugin in the harness')
 
 
-class FakeNetworkClient:
+class _Clock:
+    """time module as seen by services._base_service: the real clock plus one second per delete, so that the harness
+    re-using one resource id within a second (a container's unique name is requested once in production) does not make
+    two backup directories `bck<ts>-...` collide."""
+
     def __init__(self):
-        self.table = {}
+        import time as _t
+        self._t = _t
+        self.skew = 0
+
+    def time(self):
+        return self._t.time() + self.skew
+
+    def __getattr__(self, k):
+        return getattr(self._t, k)
+
+
+class NetworkClient:
+    """The REAL services.ResourceServiceClient (put / get / delete on a real client directory registered in a real
+    service directory). Only the daemon's half is the harness: answering a request is writing reply.yml through the
+    registration link, which is what ResourceService._on_created does with the implementation's answer."""
+
+    def __init__(self, root):
+        from treadmill import services
+        self.svc_dir = os.path.join(root, 'network_svc')
+        self.rsrc_dir = os.path.join(self.svc_dir, 'resources')
+        os.makedirs(self.rsrc_dir)
+        from treadmill.services import _base_service
+        if not isinstance(_base_service.time, _Clock):
+            _base_service.time = _Clock()
+        self.clock = _base_service.time
+        self.client = services.ResourceService(service_dir=self.svc_dir, impl='network').make_client(
+            os.path.join(root, 'netclt'))
 
     def get(self, name):
-        return self.table.get(name)
+        fds = core.open_fds()
+        try:
+            return self.client.get(name)       # wait_for_file leaves an inotify instance behind
+        finally:
+            core.close_fds_since(fds)
 
     def delete(self, name):
-        self.table.pop(name, None)
+        self.clock.skew += 1
+        return self.client.delete(name)
+
+    def put(self, name, reply):
+        self.client.put(name, {'environment': 'dev'})
+        yaml = impl()['yaml']
+        tmp = os.path.join(self.rsrc_dir, name, '.reply.tmp')
+        with open(tmp, 'w') as f:
+            yaml.dump(reply, explicit_start=True, explicit_end=True, default_flow_style=False, stream=f)
+        os.rename(tmp, os.path.join(self.rsrc_dir, name, 'reply.yml'))
+
+    def registered(self):
+        return [n for n in os.listdir(self.rsrc_dir)
+                if not n.startswith('.') and os.path.exists(os.path.join(self.rsrc_dir, n))]
 
 
 _counter = [0]
@@ -225,7 +273,7 @@ class World:
         self.ipt = FakeIptables(mods['iptables'])
         self.sock = FakeSocket({h: ip_str(case['dns'][k]) for k, h in enumerate(HOSTS)})
         self.newnet = FakeNewnet()
-        self.netclient = FakeNetworkClient()
+        self.netclient = NetworkClient(self.root)
         for mod in (mods['_run'], mods['_finish']):
             mod.iptables = self.ipt
             mod.socket = self.sock
@@ -299,17 +347,17 @@ class World:
 
     def snapshot(self):
         return {'rules': self.list_rules(), 'specs': self.list_specs(), 'ipset': self.list_ipset(),
-                'net': sorted([self.uniq_ids[k]] for k in self.netclient.table)}
+                'net': sorted([self.uniq_ids[k]] for k in self.netclient.registered())}
 
     def apply(self, op):
         mods = impl()
         k, i = op
         m, app = self.case['containers'][i], self.apps[i]
         if k == 'net_put':
-            self.netclient.table[uniq_name(m)] = {'vip': ip_str(m['vip']), 'external_ip': ip_str(m['ext']),
-                                                  'veth': 'veth%d' % m['uniq'], 'gateway': '192.168.254.254'}
+            self.netclient.put(uniq_name(m), {'vip': ip_str(m['vip']), 'external_ip': ip_str(m['ext']),
+                                              'veth': 'veth%d' % m['uniq'], 'gateway': '192.168.254.254'})
         elif k == 'net_del':
-            self.netclient.table.pop(uniq_name(m), None)
+            self.netclient.delete(uniq_name(m))
         elif k == 'start':
             mods['_run']._unshare_network(self.tm_env, os.path.join(self.apps_dir, uniq_name(m)), app)
         elif k == 'finish':
